@@ -52,6 +52,12 @@ def ref_gamma_k_disorder(spec, slots_list, category):
     return num / den, counted
 
 
+def _band(*slot_lists):
+    """the library accumulates the weighted sums in float32: the relative error grows with the number of terms"""
+    terms = sum(len(sl) * (len(sl) - 1) // 2 for sls in slot_lists for sl in sls)
+    return max(1e-5, 4 * 1.1920929e-07 * terms)
+
+
 def _categories_to_try(cont, spec):
     present = sorted({u[3] for u in cont["units"] if u[3] is not None})
     cats = gen.spec_categories(spec)
@@ -101,7 +107,7 @@ def check_disorder(case):
             classes.append("degenerate-category")
             continue
         compared += 1
-        if not oracle.close(got, ref, rel=1e-5):
+        if not oracle.close(got, ref, rel=_band(slots_list)):
             raise Violation("gamma-k-disorder-mismatch", f"category {category!r}: library {got} definition {ref} slots {slots_list}")
     # history on the SAME alignment object: another combined dissimilarity, then an in-place edit (stale memos)
     second = case.get("second")
@@ -113,7 +119,7 @@ def check_disorder(case):
         for category in [None] + present[:2]:
             got = float(lib_call("gamma_k_disorder[second dissimilarity]", al.gamma_k_disorder, d2, category))
             ref, _ = ref_gamma_k_disorder(spec2, slots_list, category)
-            if ref is not None and not oracle.close(got, ref, rel=1e-5):
+            if ref is not None and not oracle.close(got, ref, rel=_band(slots_list)):
                 raise Violation("gamma-k-disorder-mismatch:after-other-dissimilarity", f"category {category!r}: library {got} definition {ref} (first alpha/delta {spec['alpha']}/{spec['delta']}, now {spec2['alpha']}/{spec2['delta']})")
         # in-place edit: append a copy of an existing unitary alignment's real pair as an extra unitary alignment
         donor = next((sl for sl in slots_list if sum(1 for x in sl if x is not None) >= 2), None)
@@ -126,7 +132,7 @@ def check_disorder(case):
             for category in [None] + present[:1]:
                 got = float(lib_call("gamma_k_disorder[after append]", al.gamma_k_disorder, d, category))
                 ref, _ = ref_gamma_k_disorder(spec, slots2, category)
-                if ref is not None and not oracle.close(got, ref, rel=1e-5):
+                if ref is not None and not oracle.close(got, ref, rel=_band(slots_list)):
                     raise Violation("gamma-k-disorder-mismatch:after-in-place-edit", f"category {category!r}: library {got} definition {ref}")
             al.unitary_alignments.pop()
             classes.append("history")
@@ -181,7 +187,7 @@ def check_results(case):
             continue
         ref = 1.0 if o == 0 else 1.0 - o / (sum(ch) / len(ch))
         compared += 1
-        if not oracle.close(got, ref, rel=1e-4):
+        if not oracle.close(got, ref, rel=max(1e-4, 4 * _band(obs_slots, *chance_slots)), scale=max(1.0, abs(ref), abs(1.0 - ref))):
             raise Violation(f"{name}-mismatch", f"category {category!r}: library {got} definition {ref}")
     # = 1 when co-aligned units never differ in category and no unit is unaligned
     if all(all(s is not None for s in sl) and len({s[2] for s in sl}) == 1 for sl in obs_slots):
